@@ -2,10 +2,10 @@ SPEC = {
     "id": "C06",
     "coq_props": ["Properties/C06.v", "Corr/C06.v"],
     "module": "MS.Properties.C06",
-    "theorems": ["C06_terminates", "C06_no_panic_guarded", "C06_i_refuted", "C06_i_refuted_status_eof", "C06_i_refuted_unparsable",
+    "theorems": ["C06_no_panic", "C06_startup_no_panic", "C06_terminates", "C06_decoder_total",
                  "C06_applied_is_intact", "C06_startup_applied_is_intact", "C06_startup_cases", "C06_frames_good_prefix",
                  "C06_iii_guarded", "C06_iii_guarded_nil", "C06_iii_frames",
-                 "C06_iii_refuted_spurious_checkpoint", "C06_iii_refuted_duplicate", "C06_iii_refuted_panic"],
+                 "C06_iii_refuted_spurious_checkpoint", "C06_iii_refuted_duplicate"],
     "corr_require": "Require Import MS.Base.Hex MS.Corr.C06.",
     "agrees": "C06.agrees",
     "in_domain": "C06.in_domain",
@@ -43,13 +43,13 @@ SPEC = {
         "an allocation of up to 1000x the file size (make([]byte, tgLen)) is modelled as an allocation, not as memory exhaustion",
     ],
     "level": "proof",
-    "level_text": "Coq theorems over EVERY byte string: C06_terminates (the scan consumes >= 1 byte per iteration: no hang) and "
-                  "C06_applied_is_intact (checksum gate: an applied transaction is an intact record of the file). Guarded: C06_no_panic_guarded "
-                  "(no panic unless a frame of three named kinds or an intact undecodable body) with C06_i_refuted* witnesses (status record + "
-                  "nine zero bytes, ...); C06_iii_guarded / _nil / _frames (an intact committed transaction before the damage is applied, for "
-                  "every well-formed prefix and EVERY tail that frames no checkpoint-commit >= it, no panic frame, no duplicate TGDATA key) "
-                  "with the scanner-stays-in-step lemma C06_frames_good_prefix and C06_iii_refuted_* witnesses (spurious checkpoint, "
-                  "duplicate abort, panic). All witnesses replayed on the real Replay.",
+    "level_text": "Coq theorems over EVERY byte string (after the three fix: commits in /repo): C06_no_panic / C06_startup_no_panic (replay "
+                  "neither panics nor hangs: every make/slice/index outcome kept in the model is proved unreachable behind the new tests; "
+                  "C06_decoder_total for the checked ParseTGData) and C06_applied_is_intact (checksum gate: an applied transaction is an intact "
+                  "record of the file). Guarded: C06_iii_guarded / _nil / _frames (an intact committed transaction before the damage is applied, "
+                  "for every well-formed prefix and EVERY tail that frames no checkpoint-commit >= it and no duplicate TGDATA key) with the "
+                  "scanner-stays-in-step lemma C06_frames_good_prefix and C06_iii_refuted_* witnesses (spurious checkpoint, duplicate abort) "
+                  "replayed on the real Replay; the former panic witnesses are regressions that must now pass.",
     "level_note": "No axioms. Trusted: Coq kernel/VM, gen translator, harness. Modelled not verified: executor/walreplay.go Replay (both passes), "
                   "readMessageID, readTGData, fullRead; executor/wal.go readTransactionInfo, sanityCheckValue, validateCheckSum, TakeOverWALFile, "
                   "NeedsReplay, ParseTGData; executor/wal/file.go Read, ReadStatus; walclean.go size test. replayTGData's file effects are a parameter.",
